@@ -71,6 +71,8 @@ class Associate(Block):
             # in the associate object. Hover should now pick the local keywords
             # over the linked_object keywords
             assoc.link_name = re.sub(r"\(.*\)", "", assoc.link_name)
+            # Forget the previous target, it may have been renamed or removed
+            assoc.var.link_obj = None
             var_stack = get_var_stack(assoc.link_name)
             is_member = len(var_stack) > 1
             if is_member:
